@@ -29,6 +29,7 @@ def run(ctx):
                                 "tsk_table_collection_compute_mutation_times", "tsk_table_sorter_init",
                                 "tsk_table_collection_individual_topological_sort"})
     lib_sweep.sweep_conditions(ctx, P, tus=["tables"])
+    lib_sweep.sweep_inverse(ctx, P, tus=["tables"])
     lib_module.parsed_used(ctx, P, only=ms)
     lib_py.kw_forward(ctx, py, mods=("tables",), only=ps)
     lib_py.unused_params(ctx, py, mods=("tables",), only=ps)
